@@ -196,11 +196,11 @@ fn c38_q_scalar_rules_alonzo() {
     core::mem::forget(tx);
 }
 
-/// bound: shelley-ma body with symbolic fee, ttl (None allowed), 0/1 inputs; symbolic slot, size, minfee_a/b (no wrap), max size; byron: 0/1 inputs and outputs with symbolic amount, symbolic size and max_tx_size; unwind 5
+/// bound: shelley-ma body with symbolic fee, ttl (None allowed), 0/1 inputs; symbolic slot, size, minfee_a/b (no wrap), max size; unwind 5
 #[kani::proof]
 #[kani::unwind(5)]
 #[kani::stub(std::fmt::format, crate::stubs::fmt_format_stub)]
-fn c38_q_scalar_rules_shelley_byron() {
+fn c38_q_scalar_rules_shelley_ma() {
     use shelley_ma::verif_hooks as h;
     let mut body = al::body();
     body.fee = kani::any();
@@ -237,45 +237,44 @@ fn c38_q_scalar_rules_shelley_byron() {
     if body.fee < minfee {
         assert!(r6.is_err(), "shelley: fee < b + a*size => check_fees is Err");
     }
-    // byron
-    let b_in: bool = kani::any();
-    let b_out: bool = kani::any();
+    core::mem::forget((r1, r2, r5, r6));
+    core::mem::forget(pp);
+    core::mem::forget(body);
+}
+
+/// bound: byron: empty input / output lists (the violating side; with one element the validator's clone-and-drop of the heap-held list has no verdict in 280 s), one output with symbolic amount for the lovelace rule (stack-backed Vec, only iterated), symbolic size and max_tx_size; unwind 5
+#[kani::proof]
+#[kani::unwind(5)]
+#[kani::stub(std::fmt::format, crate::stubs::fmt_format_stub)]
+fn c38_q_scalar_rules_byron() {
+    use pallas_primitives::byron as by;
     let amount: u64 = kani::any();
-    let txid: [u8; 32] = kani::any();
-    let ins = if b_in { vec![pallas_primitives::byron::TxIn::Variant0(pallas_codec::utils::CborWrap((Hash::new(txid), kani::any())))] } else { Vec::new() };
-    let outs = if b_out {
-        vec![pallas_primitives::byron::TxOut {
-            address: pallas_primitives::byron::Address { payload: TagWrap::new(vec![0u8; 1].into()), crc: kani::any() },
-            amount,
-        }]
-    } else {
-        Vec::new()
-    };
-    let btx = pallas_primitives::byron::Tx { inputs: MaybeIndefArray::Def(ins), outputs: MaybeIndefArray::Def(outs), attributes: EmptyMap };
-    let q1 = byron::verif_hooks::check_ins_not_empty(&btx);
-    let q2 = byron::verif_hooks::check_outs_not_empty(&btx);
+    let mut oa = [by::TxOut { address: by::Address { payload: TagWrap::new(Vec::new().into()), crc: kani::any() }, amount }];
+    let outs = unsafe { Vec::from_raw_parts(oa.as_mut_ptr(), 1, 0) };
+    let empty = by::Tx { inputs: MaybeIndefArray::Def(Vec::new()), outputs: MaybeIndefArray::Indef(Vec::new()), attributes: EmptyMap };
+    let btx = by::Tx { inputs: MaybeIndefArray::Def(Vec::new()), outputs: MaybeIndefArray::Def(outs), attributes: EmptyMap };
+    let q1 = byron::verif_hooks::check_ins_not_empty(&empty);
+    let q2 = byron::verif_hooks::check_outs_not_empty(&empty);
     let q3 = byron::verif_hooks::check_outs_have_lovelace(&btx);
-    kani::cover!(q1.is_ok() && q2.is_ok() && q3.is_ok(), "byron: all three accept");
-    if !b_in {
-        assert!(q1.is_err(), "byron: no inputs => Err");
-    }
-    if !b_out {
-        assert!(q2.is_err(), "byron: no outputs => Err");
-    }
-    if b_out && amount == 0 {
+    kani::cover!(q3.is_ok(), "byron: output with lovelace accepted");
+    kani::cover!(amount == 0, "byron: zero-lovelace output");
+    assert!(q1.is_err(), "byron: no inputs => Err");
+    assert!(q2.is_err(), "byron: no outputs => Err");
+    if amount == 0 {
         assert!(q3.is_err(), "byron: output without lovelace => Err");
     }
     let mut bpp = byron_pp();
     bpp.max_tx_size = kani::any();
     let bsize: u64 = kani::any();
     let q4 = byron::verif_hooks::check_size(&bsize, &bpp);
+    kani::cover!(q4.is_err(), "byron: too large");
+    kani::cover!(q4.is_ok(), "byron: size fine");
     if bsize > bpp.max_tx_size {
         assert!(q4.is_err(), "byron: size > max => check_size is Err");
     }
-    core::mem::forget((r1, r2, r5, r6, q1, q2, q3, q4));
-    core::mem::forget(btx);
-    core::mem::forget(pp);
-    core::mem::forget(body);
+    core::mem::forget((q1, q2, q3, q4));
+    core::mem::forget((btx, empty));
+    core::mem::forget(oa);
 }
 
 // ------------------------------------------------------------------ R4 output network id
